@@ -349,6 +349,8 @@ pub fn check(ctx: &Ctx, nodes: &[Node], shape: &str) {
                 let ok = a.messages.len() == r.messages.len() && a.messages.iter().zip(&r.messages).all(|(m, rm)| m.contains(&rm.text) && has_line_token(m, rm.line));
                 if !ok {
                     ctx.violation(format!("cond/{}/messages", sig_shape), format!("messages {:?} vs expected {:?}", a.messages, r.messages.iter().map(|m| (m.line, m.text.clone())).collect::<Vec<_>>()), replay(json!(null)));
+                } else {
+                    crate::props::variants::check_one(ctx, nodes, a, &mut Rng::for_case(fw::hash_str(&src), 0x7A80, 0), "cond");
                 }
             }
         }
@@ -696,12 +698,15 @@ pub fn run(ctx: &Ctx) -> i32 {
     ctx.exhaustive.store(false, std::sync::atomic::Ordering::Relaxed);
     fw::finish(
         ctx,
-        "conditional chains (.if/.ifdef/.ifndef head, up to 5 .elif arms, optional .else) under every truth assignment for all shapes up to 3 arms (thorough: 5), with and without nesting and hostile unselected content, plus random programs nested up to 4 deep; conditions on literals, comparisons, logical operators, .equ constants and #define flags defined before / after / only inside unselected branches; unselected branches carry .error, clobbering .equ/.set/.def/#define, duplicate labels, garbage text, unterminated .macro heads, missing .include, other .device; plus programs whose chains sit inside macro bodies and test #define flags that the expansions themselves set (emit-once blocks, flags set by another macro between identical calls), compared with the program in which every call is replaced by its body; distinct_nontrivial = distinct program texts / enumerated shapes",
+        "conditional chains (.if/.ifdef/.ifndef head, up to 5 .elif arms, optional .else) under every truth assignment for all shapes up to 3 arms (thorough: 5), with and without nesting and hostile unselected content, plus random programs nested up to 4 deep; conditions on literals, comparisons, logical operators, .equ constants and #define flags defined before / after / only inside unselected branches; unselected branches carry .error, clobbering .equ/.set/.def/#define, duplicate labels, garbage text, unterminated .macro heads, missing .include, other .device; plus programs whose chains sit inside macro bodies and test #define flags that the expansions themselves set (emit-once blocks, flags set by another macro between identical calls), compared with the program in which every call is replaced by its body; every valid program once more in one randomly chosen setting that means nothing (as a file beginning with blank lines / CRLF / no final line end; a run of top-level lines in an included file; inside a selected branch; followed by .exit and unread text; preceded by unused definitions; respelled; branch and included file at once) with the same images, sizes, RAM extent and message texts required (props/variants.rs; counters variants:*); distinct_nontrivial = distinct program texts / enumerated shapes",
         &["refmodel/layout.rs conditional semantics (first true branch, else when none); the blanked program keeps line numbers so whole BuildResults are compared"],
     )
 }
 
 pub fn replay(ctx: &Ctx, case: &Value) -> i32 {
+    if case.get("variant").is_some() {
+        return crate::props::variants::replay(ctx, case);
+    }
     let src = case["source"].as_str().unwrap_or("");
     let deleted = case["deleted"].as_str().unwrap_or("");
     let a = fw::build_str(src);
